@@ -3,6 +3,7 @@ import DswModel.Model.Operation
 import DswModel.Model.Graphized
 import DswModel.Model.Spiderweb
 import DswModel.Model.Biofilter
+import DswModel.Model.Capacity
 /-!
 Line-protocol driver: one operation per input line, one canonical result line per operation.
 Imports only `DswModel.Model.*` (core Lean), so it links as a native executable; the definitions
@@ -108,6 +109,15 @@ def parseCfg (k run motifs gc : String) : FilterCfg :=
       | [l, u, a] => some ⟨l, u, a⟩
       | _ => none }
 
+def parseRat (s : String) : Rat :=
+  match s.splitOn "/" with
+  | [n, d] => (parseIntD n : Rat) / (parseNatD d : Rat)
+  | [n] => (parseIntD n : Rat)
+  | _ => 0
+
+/-- `⌊x · 10^18⌋` as a decimal string (for comparison with floats). -/
+def showScaled (x : Rat) : String := toString ((x * (10 ^ 18 : Nat)).floor)
+
 def step (line : String) : String :=
   match line.trimAscii.toString.splitOn " " with
   | ["add", s, b] => showDigits (calculusAddition (digitsOf s) (parseNatD b))
@@ -180,6 +190,13 @@ def step (line : String) : String :=
   | ["flt", k, run, motifs, gc, s, onlyLast] =>
     let c := parseCfg k run motifs gc
     if c.accepted then "1 " ++ showBool (c.valid (charsOf s) (parseBool onlyLast)) else "0 -"
+  | ["cap", a, tolExp, maxIter, vecs] =>
+    let starts := (vecs.splitOn ";").map fun v => ((v.splitOn ",").map parseRat).toArray
+    match approximateCapacity (parseAcc a) (1 / (10 ^ parseNatD tolExp : Nat)) (parseNatD maxIter) starts with
+    | none => "err OUT_OF_FUEL"
+    | some (res, recs) =>
+      "ok " ++ ",".intercalate (res.map showScaled) ++ " " ++
+        ";".intercalate (recs.map fun r => ",".intercalate (r.map showScaled))
   | _ => "bad-op"
 
 partial def loop (h : IO.FS.Stream) (out : IO.FS.Stream) : IO Unit := do
